@@ -88,7 +88,8 @@ func (s *orderConn) counts() (int, bool) {
 }
 
 // tape: gomaxprocs, route, runLate, waiters, wakers, beyond, second
-var headOrder = &core.Check{Name: "c13/head-order", Fn: func(c *core.Ctx) error {
+var headOrder = &core.Check{Name: "c13/head-order", Hang: caseHang, Fn: func(c *core.Ctx) error {
+	caseStart()
 	gmp := c.OneOf("gomaxprocs", 1, 2, 16)
 	route := c.Choose("route", 2)
 	runLate := c.Bool("runLate") // Run starts only after the heads have queued up
@@ -131,7 +132,9 @@ var headOrder = &core.Check{Name: "c13/head-order", Fn: func(c *core.Ctx) error 
 			how = fmt.Sprintf("the best connection conn0 reports %v and %d; then a notification for head %d with the same connection id reaches the pool's channel (a late notification of conn0, emulated by a second connection object with id 0)", wakers, newer, older)
 		}
 	}
-	p.VerifSetBest(x)
+	if err := setBest(p, x, "conn0 (fresh pool)"); err != nil {
+		return err
+	}
 	c.Note("gomaxprocs", gmp)
 	c.Note("call", fmt.Sprintf("%d x WaitMasterchainSeqno(%d, %v) registered and parked; best connection conn0 at head %d; Run started after the heads were queued: %v", nW, target, pointTimeout, base, runLate))
 	c.Note("heads", how+"; nothing follows")
@@ -142,19 +145,34 @@ var headOrder = &core.Check{Name: "c13/head-order", Fn: func(c *core.Ctx) error 
 	since := func() time.Duration { return time.Since(t0) }
 	ctx, stopRun := context.WithCancel(context.Background())
 	defer stopRun()
+	var runOnce sync.Once
+	startRun := func() { runOnce.Do(func() { go p.Run(ctx) }) }
 	if !runLate {
-		go p.Run(ctx)
+		startRun()
 	}
-	// every accepted SetMasterHead puts exactly one update into the pool's channel (capacity 10, at most 9 used)
+	// every accepted SetMasterHead puts exactly one update into the pool's channel (capacity 10, at most 9 used).
+	// The calls are bounded (bounded_test.go): with Run active a call that is not back is a blocked pool; before a
+	// late Run, Run is started at once should the channel not take a head, and the case is over (no verdict).
 	queued := 0
 	last := map[pool.VerifConn]uint32{}
+	rescued := false
+	var blocked error
 	publish := func(cn pool.VerifConn, seq uint32) {
+		if blocked != nil {
+			return
+		}
 		if seq <= last[cn] {
 			panic("harness: head not above the connection's head")
 		}
 		last[cn] = seq
 		queued++
-		cn.SetMasterHead(pool.VerifHead(seq))
+		var rescue func()
+		if runLate {
+			rescue = startRun
+		}
+		r, err := poolCallRescue(fmt.Sprintf("SetMasterHead(%d) on conn%d", seq, cn.ID()), func() { cn.SetMasterHead(pool.VerifHead(seq)) }, rescue)
+		rescued = rescued || r
+		blocked = err
 	}
 	publish(x.VerifConn, base)
 	if second {
@@ -164,12 +182,18 @@ var headOrder = &core.Check{Name: "c13/head-order", Fn: func(c *core.Ctx) error 
 			publish(other, base)
 		}
 	}
+	if blocked != nil {
+		c.Class("pool blocked")
+		return blocked
+	}
 
 	// the switcher of route 0: parked until X's ID() releases it; it reports to nobody
 	var swMu sync.Mutex
 	var swT0, swT1, olderT1 time.Duration
 	swDone, abandoned := false, false
 	sig := make(chan struct{})
+	var sigOnce sync.Once
+	releaseSig := func() { sigOnce.Do(func() { close(sig) }) }
 	if route == 0 {
 		go func() {
 			<-sig
@@ -188,7 +212,7 @@ var headOrder = &core.Check{Name: "c13/head-order", Fn: func(c *core.Ctx) error 
 			swT1, olderT1, swDone = t1, t2, true
 			swMu.Unlock()
 		}()
-		x.fire = func() { close(sig) }
+		x.fire = releaseSig
 	}
 
 	probe := startLagProbe()
@@ -210,19 +234,30 @@ var headOrder = &core.Check{Name: "c13/head-order", Fn: func(c *core.Ctx) error 
 			out <- r
 		}()
 	}
-	for i := 0; p.VerifWaiters() < nW && i < 20000; i++ {
-		time.Sleep(100 * time.Microsecond)
-	}
-	if n := p.VerifWaiters(); n != nW {
-		// not all registered within 2 s (or some returned already): nothing is published, no verdict
-		cancelWaiters()
-		wg.Wait()
-		probe.finish()
+	abandon := func() { // the parked switcher of route 0 goes home
 		if route == 0 {
 			swMu.Lock()
 			abandoned = true
 			swMu.Unlock()
-			close(sig)
+			releaseSig()
+		}
+	}
+	n, err := waitersSeen(p, nW, nil)
+	if err != nil {
+		probe.finish()
+		abandon()
+		c.Class("pool blocked")
+		return err
+	}
+	if n != nW {
+		// not all registered within 2 s (or some returned already): nothing is published, no verdict
+		cancelWaiters()
+		h := awaitGroup(&wg, callLimit)
+		probe.finish()
+		abandon()
+		if h != nil {
+			c.Class("pool blocked")
+			return blockedError(fmt.Sprintf("%d x WaitMasterchainSeqno(%d) whose context was cancelled", nW, target), h)
 		}
 		c.Class("inconclusive: waiters not registered in 2 s (slow machine)")
 		return nil
@@ -255,23 +290,28 @@ var headOrder = &core.Check{Name: "c13/head-order", Fn: func(c *core.Ctx) error 
 		}
 	}
 	allOut := since()
-	if runLate {
-		go p.Run(ctx)
+	startRun()
+	if blocked != nil {
+		probe.finish()
+		abandon()
+		c.Class("pool blocked")
+		return blocked
 	}
 
-	done := make(chan struct{})
-	go func() { wg.Wait(); close(done) }()
-	select {
-	case <-done:
-	case <-time.After(pointTimeout + 20*time.Second):
+	if h := awaitGroup(&wg, pointTimeout+20*time.Second); h != nil {
 		probe.finish()
-		_, d := verifiablyStuck(func() int64 { return 0 })
+		abandon()
 		c.Class("pool blocked")
-		return fmt.Errorf("%d x WaitMasterchainSeqno(%d, %v) did not all return within %v\ngoroutines inside the pool package:\n%s", nW, target, pointTimeout, pointTimeout+20*time.Second, d.text)
+		return fmt.Errorf("the pool is blocked: %d x WaitMasterchainSeqno(%d, %v) not all back %s\ngoroutines inside the pool package:\n%s", nW, target, pointTimeout, h, h.dump.text)
 	}
 	lag := probe.finish()
 	close(out)
 	c.Note("scheduler lag", lag.String())
+	if rescued {
+		abandon()
+		c.Class("inconclusive: Run had to be started early (the head channel did not take the heads)")
+		return nil
+	}
 
 	fired := false
 	xCalls, yCalls := 0, 0
@@ -296,7 +336,7 @@ var headOrder = &core.Check{Name: "c13/head-order", Fn: func(c *core.Ctx) error 
 		d := swDone
 		swMu.Unlock()
 		if !fired {
-			close(sig)
+			releaseSig()
 		}
 		// model: ID() of the best connection is called once per dispatched update. Then X saw exactly the
 		// updates up to `newer` (the switch came after that dispatch) and Y exactly one, its own head.
